@@ -29,9 +29,22 @@ def x_cases():
     ]
 
 
+def synth_name_cases():
+    """real nodes named like the gates the reader synthesises for a nested expression AND like the numbered variant it would pick next
+    (and_a_b, and_a_b_0, ...), next to a gate whose assign form needs such an inner gate"""
+    out = []
+    I = [("a", "input", []), ("b", "input", []), ("c", "input", [])]
+    for t, inner in (("nand", "and"), ("nor", "or"), ("xnor", "xor")):
+        nodes = I + [(f"{inner}_a_b", "or", ["a", "c"], True), (f"{inner}_a_b_0", "and", ["b", "c"], True), (f"{inner}_a_b_1", "xor", ["a", "b", "c"], True),
+                     ("y", t, ["a", "b"], True), ("z", t, ["a", "b", "c"], True), (f"not_{inner}_a_b", "buf", ["y"], True)]
+        out.append((("synthnames", t), mkspec(f"synth_{t}", nodes)))
+    return out
+
+
 def all_cases(ctx):
-    cs = F.f_unit(5) + F.f_shape() + F.f_bb() + x_cases() + F.reordered(F.f_shape() + F.f_bb())
+    cs = synth_name_cases() + F.reordered(synth_name_cases()) + F.f_unit(5) + F.f_shape() + F.f_bb() + x_cases() + F.reordered(F.f_shape() + F.f_bb())
     cs += F.renamed([c for c in F.f_unit(3, pairs=False)] + F.f_shape()[:4], "escaped")
+    cs += F.f_wide((17,) if ctx.quick else (17, 33), types=("nand", "xor", "xnor"))
     cs += F.f_rand(ctx.seed, 30 if ctx.quick else 300) + F.f_rand_bb(ctx.seed, 12 if ctx.quick else 100)
     if not ctx.quick:
         cs += [(("lib", n), "lib:" + n) for n in ("c17", "c432", "s27")]
